@@ -612,7 +612,7 @@ SEQ3_TERM_TEXTS = (
     + [x + q for x in ("a", ".") for q in ("*", "+", "?", "*?", "+?", "??", "{1,2}", "{2}")]
     + ["b*", "b?", "b+?"]
     + ["(a)", "(.)", "(a)?", "(b)?", "(a)*", "(.)*?", "(a|b)", "(a|ab)", "(a)??", "(?:ab)??", "(?:ab)?", "(a*)", "(a)+?",
-       "(|a)", "(?:(a)|b)", "(?:a|)", "(a?)*", "((a)|b)+"]
+       "(|a)", "(?:(a)|b)", "(?:a|)", "(a?)*", "((a)|b)+", "(?:(a)|b)*"]
     + ["\\1", "$", "\\b", "(?=a)", "(?!a)", "(?<=a)", "(?<!a)", "(?=(a))", "(?<=(a))"]
 )
 
@@ -656,7 +656,7 @@ def small_subjects(maxlen, letters="abc"):
     return out
 
 
-SPECIAL_SUBJECTS = ["A", "aB", "Ab", "AB", "a\nb", "\na", "a\n", "a_b", "a1", "_", "a b", "b\r\na", "a\u2028b", "1"]
+SPECIAL_SUBJECTS = ["A", "aB", "Ab", "AB", "aA", "Bb", "a\nb", "\na", "a\n", "a_b", "a1", "_", "a b", "b\r\na", "a\u2028b", "1"]
 
 # ------------------------------------------------------------ random ASTs (depth<=3)
 RANDOM_ALPHABET = "abcABC019_ \n"
